@@ -251,8 +251,8 @@ func cmdCheck(prop, tier string) int {
 		return 2
 	}
 	defer sc.cleanup()
-	fmt.Printf("scratch copy instrumented: %d funcs, %d loops, %d map ranges, %d S-points, %d make guards (%.1fs)\n",
-		sc.sites.Funcs, sc.sites.Loops, sc.sites.MapRanges, sc.sites.SPoints, sc.sites.Makes, time.Since(t0).Seconds())
+	fmt.Printf("scratch copy instrumented: %d funcs, %d loops, %d map ranges, %d S-points, %d statement points, %d make guards (%.1fs)\n",
+		sc.sites.Funcs, sc.sites.Loops, sc.sites.MapRanges, sc.sites.SPoints, sc.sites.Stmts, sc.sites.Makes, time.Since(t0).Seconds())
 	for _, u := range sc.sites.Unsupported {
 		fmt.Println("note: synchronisation construct in non-test code:", u)
 	}
